@@ -566,3 +566,146 @@ RULES.setdefault("C11", []).append(Rule("C11.R8", "repeated identifiers survive 
 
 RULES.setdefault("C10", []).append(Rule("C10.R13", "repeated identifiers are all emitted: presence in the JSON container is key membership (shared with C01.R8)", 1, c01_r8, "F-PATH",
                                         "an independent reader finds as many records as the document holds"))
+
+
+# ------------------------------------------------------------------------------------------ C02.R14 = C10.R15: inference never overrides an xsi:type already set
+def _bool_leaves(e, out):
+    if isinstance(e, ast.BoolOp):
+        for v in e.values:
+            _bool_leaves(v, out)
+    elif isinstance(e, ast.UnaryOp) and isinstance(e.op, ast.Not):
+        _bool_leaves(e.operand, out)
+    else:
+        out.setdefault(norm(e), e)
+
+
+def _bool_eval(e, env):
+    if isinstance(e, ast.BoolOp):
+        vals = [_bool_eval(v, env) for v in e.values]
+        return all(vals) if isinstance(e.op, ast.And) else any(vals)
+    if isinstance(e, ast.UnaryOp) and isinstance(e.op, ast.Not):
+        return not _bool_eval(e.operand, env)
+    return env[norm(e)]
+
+
+def xsi_type_not_overridden(ctx: Ctx, rule):
+    """The XML writer sets xsi:type explicitly for some kinds (xsd:QName for qualified names, prov:InternationalizedString ...) and then
+    *infers* one for the rest.  The inference block must be entered only when no xsi:type has been set: its condition, as a
+    propositional formula over its atoms, implies `xsi:type not in subelem.attrib` (a dropped pair of parentheses breaks exactly
+    this: `a or b or c and not-typed` no longer implies not-typed)."""
+    res = RuleResult()
+    q = XM + ".ProvXMLSerializer.serialize_bundle"
+    n_blocks = 0
+    for q2 in ctx.helper_closure(q):
+        if not q2.startswith(XM + "."):
+            continue
+        f2 = ctx.fn(q2)
+        for n in walk_function(f2.node):
+            if not isinstance(n, ast.If):
+                continue
+            assigns_type = any(isinstance(a, ast.Assign) and any(isinstance(t, ast.Name) and "xsd_type" in t.id for t in a.targets) for b in n.body for a in ast.walk(b))
+            leaves = {}
+            _bool_leaves(n.test, leaves)
+            guard = None
+            for txt, e in leaves.items():
+                if isinstance(e, ast.Compare) and len(e.ops) == 1 and isinstance(e.ops[0], ast.NotIn) and isinstance(e.comparators[0], ast.Attribute) and e.comparators[0].attr == "attrib":
+                    try:
+                        k = ctx.eval_in(q2, e.left)
+                    except AnalysisError:
+                        k = None
+                    if isinstance(k, str) and k.endswith("}type"):
+                        guard = txt
+            if not assigns_type or guard is None or len(leaves) > 14:
+                continue
+            n_blocks += 1
+            names = sorted(leaves)
+            bad_env = None
+            for bits in range(1 << len(names)):
+                env = {nm: bool(bits >> i & 1) for i, nm in enumerate(names)}
+                if _bool_eval(n.test, env) and not env[guard]:
+                    bad_env = env
+                    break
+            res.ob("%s: the type-inference condition (%d atoms) implies `%s`: %s" % (short(q2), len(names), guard[:50], bad_env is None))
+            if bad_env is not None:
+                on = [k[:30] for k, v in bad_env.items() if v]
+                res.fail(rule.id, "inference-overrides-explicit-type", ctx.loc(q2, n.test),
+                         "the xsi:type inference block can be entered although an xsi:type is already set (e.g. when %s)" % " and ".join(on)[:120],
+                         "force_types=True: a qualified-name value keeps its text ex:Report but its xsi:type xsd:QName is overwritten by xsd:anyURI: a reader recovers the URI 'ex:Report'")
+    if not n_blocks:
+        raise AnalysisError("the xsi:type inference block of serialize_bundle was not found")
+    return res
+
+
+RULES.setdefault("C02", []).append(Rule("C02.R14", "xsi:type inference is entered only when no xsi:type has been set (propositional implication of the guard)", 1, xsi_type_not_overridden, "F-BOOL",
+                                        "explicitly typed values (xsd:QName, prov:InternationalizedString) keep their type with force_types on or off"))
+RULES.setdefault("C10", []).append(Rule("C10.R15", "xsi:type inference never overrides an explicit xsi:type (shared with C02.R14)", 1, xsi_type_not_overridden, "F-BOOL",
+                                        "the emitted xsi:type of a qualified-name value is xsd:QName"))
+
+
+# ------------------------------------------------------------------------------------------ C11.R15 the order of XML attributes is not significant
+def xml_attribute_order(ctx: Ctx, rule):
+    """XML attributes are unordered.  The reader walks `subel.attrib.items()`; if more than one branch of that loop assigns the
+    element's value, the last attribute in document order wins and the others' information is lost (xml:lang written before
+    xsi:type: the language tag disappears).  Each branch may only record what it saw; the value is built after the loop - or at
+    most one branch assigns it."""
+    res = RuleResult()
+    q0 = XM + "._extract_attributes"
+    loops = []
+    for q in ctx.helper_closure(q0):
+        if not q.startswith(XM + "."):
+            continue
+        f = ctx.fn(q)
+        for n in walk_function(f.node):
+            if isinstance(n, ast.For) and "attrib" in norm(n.iter):
+                loops.append((q, n))
+    if not loops:
+        raise AnalysisError("the loop over an element's XML attributes was not found")
+    for q, loop in loops:
+        f = ctx.fn(q)
+        # variables assigned in the loop body that are read after the loop (the element's value)
+        assigned = {}
+        chain = loop.body
+        branches = []
+        if len(chain) == 1 and isinstance(chain[0], ast.If):
+            node = chain[0]
+            while True:
+                branches.append(node.body)
+                if len(node.orelse) == 1 and isinstance(node.orelse[0], ast.If):
+                    node = node.orelse[0]
+                else:
+                    if node.orelse:
+                        branches.append(node.orelse)
+                    break
+        else:
+            branches = [[st] for st in chain]
+        for i, br in enumerate(branches):
+            for st in br:
+                for a in ast.walk(st):
+                    if isinstance(a, ast.Assign):
+                        for t in a.targets:
+                            if isinstance(t, ast.Name):
+                                assigned.setdefault(t.id, set()).add(i)
+        after = False
+        used_after = set()
+        for n in walk_function(f.node):
+            pass
+        # names read after the loop, in the statements following it in the same block
+        for parent in ast.walk(f.node):
+            for fld in ("body", "orelse"):
+                lst = getattr(parent, fld, None)
+                if isinstance(lst, list) and loop in lst:
+                    for st in lst[lst.index(loop) + 1:]:
+                        for x in ast.walk(st):
+                            if isinstance(x, ast.Name) and isinstance(x.ctx, ast.Load):
+                                used_after.add(x.id)
+        multi = {v: bs for v, bs in assigned.items() if len(bs) > 1 and v in used_after}
+        res.ob("%s: the attribute loop has %d branches; result variables assigned by more than one branch: %s" % (short(q), len(branches), sorted(multi) or "none"))
+        for v, bs in sorted(multi.items()):
+            res.fail(rule.id, "attribute-order-significant::%s" % v, ctx.loc(q, loop),
+                     "%d branches of the loop over the XML attributes assign `%s`: whichever attribute comes last in the text decides the value" % (len(bs), v),
+                     "<prov:label xml:lang='en' xsi:type='prov:InternationalizedString'>hello</prov:label> loads without its language tag; with the two attributes swapped it loads with it")
+    return res
+
+
+RULES.setdefault("C11", []).append(Rule("C11.R15", "the value read from an XML element does not depend on the order of its attributes", 1, xml_attribute_order, "F-DEF",
+                                        "every spelling of a typed, language-tagged literal loads with all of its information"))
